@@ -117,13 +117,13 @@ run_cmd do
 '''
 
 
-def audit(pid):
-    """`#print axioms`-equivalent for every public theorem of Pyc.Props.<pid>.
+def audit(pid, mod=None):
+    """`#print axioms`-equivalent for every public theorem of Pyc.Props.<pid> (or of module `mod`).
     Returns list of (theorem, [axioms])"""
-    mod = 'Pyc.Props.%s' % pid
+    mod = mod or 'Pyc.Props.%s' % pid
     d = os.path.join(LEAN, 'Audit')
     os.makedirs(d, exist_ok=True)
-    path = os.path.join(d, '%s.lean' % pid)
+    path = os.path.join(d, '%s.lean' % mod.split('.')[-1])
     with open(path, 'w') as f:
         f.write(AUDIT_TMPL % {'mod': mod})
     p = subprocess.run(['lean', path], cwd=LEAN, env=lean_env(), capture_output=True, text=True, timeout=1200)
